@@ -38,7 +38,6 @@ MIRRORS = [('enspara/geometry/rotamer.py', ['_rotamers', 'is_buffered_transition
            ('enspara/cards/disorder.py', ['transitions'])]
 
 K_F13 = 'hysteresis-two-basin-selfwrap'
-K_SHORT = 'transitions-ragged-row-shorter-than-2'
 
 
 def _const_num(node):
@@ -660,7 +659,7 @@ def gen_t2(rng, form=None):
     pattern = int(rng.choice([0, 1, 2, 3, 4, 5, 5, 5, 5, 5, 1, 2, 3]))
     if form == 'ragged':
         lens = [int(rng.integers(2, 10)) for _ in range(ntr)]
-        if rng.random() < 0.15:
+        if rng.random() < 0.35:
             lens[int(rng.integers(0, ntr))] = int(rng.integers(0, 2))      # a 0/1-frame trajectory
         if ntr >= 2 and len(set(lens)) == 1:
             lens[0] += 1
@@ -704,6 +703,8 @@ def call_t2(case):
     from enspara.cards import disorder
     from enspara import ra
     rows, dtype, form = case['rows'], case['dtype'], case['form']
+    if form == 'ragged' and sum(len(r) for r in rows) == 0:
+        return {'skipped': 'no data'}               # see check_t2
     if form == 'ragged':
         a = ra.RaggedArray([np.array(r, dtype=dtype) for r in rows])
     else:
@@ -757,14 +758,17 @@ def check_t2(ctx, case, got, model):
             where.append('quiet-row-last')
         if any(0 < i < len(rows) - 1 for i in qpos):
             where.append('quiet-row-middle')
+    if case['form'] == 'ragged' and sum(len(r) for r in rows) == 0:
+        # a RaggedArray without any data cannot be handled by the RaggedArray machinery itself
+        # (IndexError on a totally empty array): outside this property's quantifier
+        ctx.skip('ragged input with zero frames in total')
+        return
     ctx.case(case, nontrivial=not quiet,
              tags=['t2', 't2-form=%s' % case['form'], 'dtype=%s' % case['dtype'], 't2-ntraj=%d' % len(rows),
                    't2-all-quiet' if quiet else 't2-moves'] + where + (['t2-short-ragged-row'] if short else []))
     if 'error' in got:
-        # any failure is a violation; only the ragged form with a 0/1-frame trajectory is a known finding
-        key = K_SHORT if short else None
         ctx.violation('transitions (%s, %d trajectories) raised %s' % (case['form'], len(rows), got['error']),
-                      case, key=key)
+                      case)
         return
     if got['ok'] != ref or len(got['ok']) != len(rows):
         ctx.violation('transitions (2-D) is not the per-trajectory list of frames whose successor differs',
